@@ -256,7 +256,7 @@ fn ata22(owner: &Pubkey, mint: &Pubkey) -> Pubkey { anchor_spl::associated_token
 // ---------------------------------------------------------------- the world
 
 const UNIT_PRICE_DECIMALS: u8 = 8;
-const SPREAD_DIV: u128 = 200;
+const SPREAD_DIV: u128 = 1000;
 
 #[derive(Clone)]
 struct World {
@@ -393,7 +393,7 @@ impl World {
         for (i, p) in [long_price, short_price].into_iter().enumerate() {
             let st = self.b.get(&self.feeds[i]);
             let mut f: PriceFeed = pod(&st.data);
-            // a real spread: min < price < max (0.5 % each side), so minimised and maximised values differ
+            // a real spread: min < price < max (0.1 % each side), so minimised and maximised values differ
             let mut price = PriceFeedPrice::new(UNIT_PRICE_DECIMALS, ts, p, p - p / SPREAD_DIV, p + p / SPREAD_DIV, 0);
             price.set_flag(gmsol_utils::price::PriceFlag::Open, true);
             gmsol_store::verif::c24::price_feed_update(&mut f, &price, 3600, true).expect("feed update");
@@ -538,6 +538,36 @@ impl World {
     }
 }
 
+// ---- GLV shift (keeper only): market tokens of market `from` are withdrawn and the proceeds deposited into market `to`, inside the GLV
+#[derive(Clone)]
+struct Shift { key: Pubkey, from: usize, to: usize, amount: u64, exec_lamports: u64 }
+impl World {
+    fn gs_key(&self, authority: &Pubkey, nonce: &[u8; 32]) -> Pubkey {
+        Pubkey::find_program_address(&[gmsol_store::states::GlvShift::SEED, self.store.as_ref(), authority.as_ref(), nonce], &gmsol_store::ID).0
+    }
+    fn create_glv_shift(&mut self, authority: Pubkey, nonce: [u8; 32], from: usize, to: usize, amount: u64, exec_lamports: u64) -> std::result::Result<Shift, (ProgramError, bool)> {
+        let key = self.gs_key(&authority, &nonce);
+        let params = gmsol_store::ops::shift::CreateShiftParams { execution_lamports: exec_lamports, from_market_token_amount: amount, min_to_market_token_amount: 0 };
+        let metas = [sg(authority), ro(self.store), rw(self.glv), rw(self.market[from]), rw(self.market[to]), rw(key), ro(self.mt[from]), ro(self.mt[to]),
+            ro(self.glv_vault[from]), ro(self.glv_vault[to]), ro(SYS), ro(spl_token::ID), ro(ata_prog::ID)];
+        self.b.run(gmsol_store::ID, &metas, &gmsol_store::instruction::CreateGlvShift { nonce, params }.data())?;
+        Ok(Shift { key, from, to, amount, exec_lamports })
+    }
+    fn execute_glv_shift(&mut self, authority: Pubkey, sh: &Shift, fee: u64, throw: bool) -> R {
+        let pid = gmsol_store::ID;
+        let metas = [sg(authority), ro(self.store), ro(self.token_map), rw(self.oracle), rw(self.glv), rw(self.market[sh.from]), rw(self.market[sh.to]), rw(sh.key),
+            rw(self.mt[sh.from]), rw(self.mt[sh.to]), rw(self.glv_vault[sh.from]), rw(self.glv_vault[sh.to]), rw(self.mt_vault[sh.from]),
+            ro(spl_token::ID), ro(pid), ro(self.event_authority), ro(pid), ro(self.feeds[0]), ro(self.feeds[1])];
+        self.b.run(pid, &metas, &gmsol_store::instruction::ExecuteGlvShift { execution_lamports: fee, throw_on_execution_error: throw }.data())
+    }
+    fn close_glv_shift(&mut self, authority: Pubkey, funder: Pubkey, sh: &Shift) -> R {
+        let pid = gmsol_store::ID;
+        let metas = [sg(authority), rw(funder), ro(self.store), rw(self.store_wallet), ro(self.glv), rw(sh.key), ro(self.mt[sh.from]), ro(self.mt[sh.to]),
+            ro(SYS), ro(spl_token::ID), ro(ata_prog::ID), ro(self.event_authority), ro(pid)];
+        self.b.run(pid, &metas, &gmsol_store::instruction::CloseGlvShift { reason: "t".to_string() }.data())
+    }
+}
+
 fn user_key(u: u8) -> Pubkey { Pubkey::new_from_array([100 + u; 32]) }
 fn bal(w: &World, owner: &Pubkey, mint: &Pubkey) -> u64 { let k = if *mint == w.glv_token { ata22(owner, mint) } else { ata(owner, mint) }; token_amount(&w.b, &k).unwrap_or(0) }
 fn glv_recorded(w: &World) -> [u64; 2] {
@@ -635,6 +665,25 @@ fn value(long: u64, short: u64) -> u128 { value_at(long, short, PL, PS) }
 fn value_lo(long: u64, short: u64) -> u128 { value_at(long, short, PL - PL / SPREAD_DIV, PS - PS / SPREAD_DIV) }
 fn value_hi(long: u64, short: u64) -> u128 { value_at(long, short, PL + PL / SPREAD_DIV, PS + PS / SPREAD_DIV) }
 
+/// independent valuation on the real market account with the model crate: (value of `x` market tokens at the MAXIMISED
+/// market-token price, pay-out pool value = MaxAfterWithdrawal maximised, valuation pool value = MaxAfterDeposit minimised)
+fn market_eval(w: &World, m: usize, x: u128) -> Option<(u128, i128, i128)> {
+    use anchor_lang::AccountDeserialize;
+    use gmsol_model::price::{Price, Prices};
+    use gmsol_model::{LiquidityMarketExt, PnlFactorKind};
+    let market: Box<gmsol_store::states::Market> = Box::new(pod(&w.b.get(&w.market[m]).data));
+    let mint = anchor_spl::token::Mint::try_deserialize(&mut &w.b.get(&w.mt[m]).data[..]).ok()?;
+    let lm = market.as_liquidity_market(&mint);
+    let pr = |p: u128, dec: u32| Price { min: (p - p / SPREAD_DIV) * 10u128.pow(12 - dec), max: (p + p / SPREAD_DIV) * 10u128.pow(12 - dec) };
+    let (lp, sp) = (pr(PL, 9), pr(PS, 6));
+    let index = if market.meta().index_token_mint == w.long { lp.clone() } else { sp.clone() };
+    let prices = Prices { index_token_price: index, long_token_price: lp, short_token_price: sp };
+    let v = gmsol_model::glv::get_glv_value_for_market(&prices, &lm, x, true).ok()?;
+    let payout = lm.pool_value(&prices, PnlFactorKind::MaxAfterWithdrawal, true).ok()?;
+    let valuation = lm.pool_value(&prices, PnlFactorKind::MaxAfterDeposit, false).ok()?;
+    Some((v.market_token_value_in_glv, payout, valuation))
+}
+
 /// (v) PRICE IN THE VAULT'S FAVOUR, on clones of the world: user `u` deposits `long`/`short` into the GLV through market `m`
 /// and immediately withdraws the minted GLV tokens at unchanged prices; a second holder's redemption value is sampled
 /// before and after. Returns a description of a violation.
@@ -678,7 +727,18 @@ fn round_trip(s: &Sid, u: u8, m: usize, long: u64, short: u64, out: &mut Out) ->
     let key = w.gw_key(&owner, &[202; 32]);
     for x in [w.glv_token, w.mt[m], w.long, w.short] { w.prepare_ata(owner, key, x).ok()?; }
     let a = w.create_glv_withdrawal(owner, m, [202; 32], minted, 0, 0, 300_000).ok()?;
+    // hypothesis of the Lean theorem `glv_roundtrip_no_gain` on this state: pay-out pool value >= valuation pool value
+    let hyp = market_eval(&w, m, 0).map(|(_, payout, valuation)| payout >= valuation);
+    let gv_before = glv_vaults(&w)[m];
     if w.execute_glv_withdrawal(w.keeper, &a, 0, true).is_err() { out.stat("rt.withdraw_rejected"); return None; }
+    match hyp { Some(true) => out.stat("rt.hypothesis_holds"), Some(false) => out.stat("rt.hypothesis_FAILS_on_accepted_round_trip"), None => out.stat("rt.hypothesis_not_evaluated") }
+    // DIRECTION of the withdrawal pricing, sharp form: the market tokens taken out of the GLV vault, valued at the MAXIMISED
+    // market-token price, are worth no more than the burned GLV tokens at the MINIMISED GLV value
+    let x = gv_before - glv_vaults(&w)[m];
+    if let (Some((vx, _, _)), Some(vg)) = (market_eval(&pre_withdrawal, m, x as u128), pre_withdrawal.glv_token_value(minted, false)) {
+        out.stat("rt.withdrawal_market_token_direction_checked");
+        if vx > vg + 1 { return Some(format!("GLV withdrawal priced against the vault: {x} market tokens worth {vx} (maximised) left the vault for {minted} GLV tokens worth {vg} (minimised GLV value)")); }
+    }
     w.close_glv_withdrawal(owner, &a).ok()?;
     out.stat("rt.completed");
     let (l1, s1) = (bal(&w, &owner, &w.long), bal(&w, &owner, &w.short));
@@ -961,7 +1021,29 @@ fn gen_next(r: &mut Rng, ss: &BTreeMap<String, Sid>, g: &mut Gen) -> String {
     }
 }
 
+fn smoke_shift() {
+    let mut w = World::new();
+    let u = w.user(0, LONG0, SHORT0);
+    w.set_prices(PL, PS, 1_700_000_000);
+    for m in 0..2 { println!("mdep {m}: {:?}", w.market_deposit(u, m, [m as u8 + 1; 32], 10_000_000_000, 1_500_000_000)); }
+    let key = w.gd_key(&u, &[9; 32]);
+    for x in [w.glv_token, w.mt[0], w.long, w.short] { w.prepare_ata(u, key, x).expect("escrow"); }
+    let a = w.create_glv_deposit(u, 0, [9; 32], 1_000_000_000_000, 0, 0, 0, 300_000).unwrap();
+    println!("glv deposit exec: {:?}", w.execute_glv_deposit(w.keeper, &a, 0, true));
+    println!("vaults {:?} rec {:?} value {:?}", glv_vaults(&w), glv_recorded(&w), { let sup = mint_supply(&w.b, &w.glv_token); w.glv_token_value(sup, false) });
+    let k = w.keeper;
+    let sh = w.create_glv_shift(k, [5; 32], 0, 1, 400_000_000_000, 0);
+    println!("create shift: {:?} cpis={:?}", sh.as_ref().map(|_| ()), CPI_LOG.lock().unwrap());
+    let sh = sh.unwrap();
+    println!("exec shift: {:?}", w.execute_glv_shift(k, &sh, 0, true));
+    println!("vaults {:?} rec {:?} value {:?} mtsupply {} {}", glv_vaults(&w), glv_recorded(&w), { let sup = mint_supply(&w.b, &w.glv_token); w.glv_token_value(sup, false) }, mint_supply(&w.b, &w.mt[0]), mint_supply(&w.b, &w.mt[1]));
+    println!("close shift: {:?}", w.close_glv_shift(k, k, &sh));
+    let sh2 = w.create_glv_shift(k, [6; 32], 1, 0, 1000, 0);
+    println!("second shift at once: {:?}", sh2.as_ref().map(|_| ()).map_err(|e| e.0.clone()));
+}
+
 fn main() {
+    if std::env::var("HARNESS_SMOKE").is_ok() { set_syscall_stubs(Box::new(Stubs)); smoke_shift(); return; }
     let cli = cli();
     let mut out = Out::new();
     if std::env::var("HARNESS_DEBUG").is_err() { std::panic::set_hook(Box::new(|_| {})); }
